@@ -25,6 +25,11 @@ def table_run(alpha):
         for call in ("L", "R", "N"):
             for stop in (True, False):
                 cells.append((lo, hi, p, call, stop))
+    # six more contests in which nothing has been counted and nothing is predicted (turnout 0, margin 0/0): a call made at poll close
+    n_regular = len(cells)
+    for call in ("L", "R", "N"):
+        for stop in (True, False):
+            cells.append((0.0, 0.0, 0.0, call, stop))
     names = [f"c{i:03d}" for i in range(len(cells))]
     B = 10
     diff = np.zeros((len(cells), B))
@@ -36,7 +41,7 @@ def table_run(alpha):
         diff[i, B // 2:] = b
     m = boot.model(B)
     rep, non, unx = boot.one_unit_per_contest(names, [c[2] for c in cells])
-    boot.inject(m, diff, [c[2] for c in cells])
+    boot.inject(m, diff, [c[2] for c in cells], turnout=[1.0] * n_regular + [0.0] * (len(cells) - n_regular))
     lhs = [n for n, c in zip(names, cells) if c[3] == "L"]
     rhs = [n for n, c in zip(names, cells) if c[3] == "R"]
     stops = [n for n, c in zip(names, cells) if c[4]]
